@@ -244,7 +244,12 @@ def main():
                      "kind_free_text": "Coq 8.16 theorems about Gallina models + extracted-OCaml vs compiled-C++ correspondence check"}],
         "checks": checks,
         "not_applicable": na,
-        "notes": "Single entry point ./check <id> --tier quick|thorough.  known_findings.txt lists fixed defects and recorded findings.",
+        "notes": "Single entry point ./check <id> --tier quick|thorough.  known_findings.txt lists fixed defects and recorded findings.  "
+                 "Tie of model and code on every run: constants/tables/structural facts regenerated from the source by tools/consts/*.py "
+                 "AND a correspondence run (extracted model vs compiled implementation on the same inputs/histories/schedules).  If a "
+                 "translator cannot read the current source, the committed reference translation coqref/ is used for it, the run prints a "
+                 "NOTE line, records tie: correspondence-only in the evidence and the correspondence run decides (DESIGN 12.7; "
+                 "VERIF_STRICT_TRANSLATOR=1 makes that a reported break instead).",
     }
     (VERIF / "MANIFEST.json").write_text(json.dumps(m, indent=1) + "\n")
 
